@@ -515,6 +515,7 @@ func ruleRetryHelper(w *core.World, r *core.Report, name string) {
 // as part of its caller keeps the path rules independent of how the code is
 // cut into functions. Everything the rules name keeps being one event.
 func init() {
+	core.Pinned = pinnedFunctions
 	core.InlinePolicy = func(call *ssa.Call, callee *ssa.Function) bool {
 		root := callee
 		for root.Parent() != nil {
@@ -530,14 +531,14 @@ func init() {
 		if o := callee.Origin(); o != nil {
 			name = core.FuncName(o)
 		}
-		return !pinnedFunctions[name] && !core.MatchName(name, knownFunctions...) && len(callee.Blocks) <= 60
+		_, pinned := pinnedFunctions[name]
+		return !pinned && !core.MatchName(name, knownFunctions...) && len(callee.Blocks) <= 60
 	}
 	// the flow-insensitive helpers expand the same functions when they have a single call site
 	core.Transparent = func(callee *ssa.Function) bool {
 		return core.InlinePolicy(nil, callee)
 	}
 }
-
 
 // calledOnlyFrom: g has call sites in the module, all of them in the named
 // function (or in helpers that are themselves called only from it).
